@@ -1,0 +1,100 @@
+//go:build verif
+
+package quickfix
+
+// Verification hooks (build tag `verif` only) for property C02: a session without its run loop whose send path
+// (queueForSend, sendInReplyTo, dropAndSendInReplyTo, dropAndReset, SendAppMessages, resendMessages, handleLogon)
+// can be called from goroutines owned by the correspondence harness in /verif. Nothing here is compiled into the
+// default build.
+
+import (
+	"time"
+
+	"github.com/quickfixgo/quickfix/internal"
+)
+
+// VerifConcSession wraps one session built the way the test rig (SessionSuiteRig.Init) builds it.
+type VerifConcSession struct {
+	s   *session
+	out chan []byte
+}
+
+// NewVerifConcSession builds an initiator-side FIX.4.2 session ISLD->TW over the given store, application and log.
+// open: messageOut is set (capacity outCap); loggedOn: the state is inSession, otherwise logonState.
+func NewVerifConcSession(app Application, store MessageStore, log Log, outCap int, open, loggedOn, disablePersist bool) *VerifConcSession {
+	s := &session{
+		sessionID:    SessionID{BeginString: "FIX.4.2", TargetCompID: "TW", SenderCompID: "ISLD"},
+		store:        store,
+		application:  app,
+		log:          log,
+		sessionEvent: make(chan internal.Event, 1024),
+		messageEvent: make(chan bool, 1),
+	}
+	s.InitiateLogon = true
+	s.HeartBtInt = 30 * time.Second
+	s.SkipCheckLatency = true
+	s.MaxLatency = 120 * time.Second
+	s.DisableMessagePersist = disablePersist
+	s.LogonTimeout = time.Hour
+	s.LogoutTimeout = time.Hour
+	s.timestampPrecision = Millis
+	v := &VerifConcSession{s: s, out: make(chan []byte, outCap)}
+	if open {
+		s.messageOut = v.out
+	}
+	v.VerifConcSetLoggedOn(loggedOn)
+	return v
+}
+
+// VerifConcSetLoggedOn switches IsLoggedOn() (session goroutine only).
+func (v *VerifConcSession) VerifConcSetLoggedOn(on bool) {
+	if on {
+		v.s.State = inSession{}
+	} else {
+		v.s.State = logonState{}
+	}
+}
+
+// VerifConcSetOut sets or clears messageOut (connect / the messageOut part of onDisconnect).
+func (v *VerifConcSession) VerifConcSetOut(open bool) {
+	if open {
+		v.s.messageOut = v.out
+	} else {
+		v.s.messageOut = nil
+	}
+}
+
+// VerifConcOut is the receiving side of messageOut.
+func (v *VerifConcSession) VerifConcOut() <-chan []byte { return v.out }
+
+// VerifConcQueueForSend is session.queueForSend (what SendToTarget calls).
+func (v *VerifConcSession) VerifConcQueueForSend(m *Message) error { return v.s.queueForSend(m) }
+
+// VerifConcSendInReplyTo is session.sendInReplyTo(m, nil).
+func (v *VerifConcSession) VerifConcSendInReplyTo(m *Message) error { return v.s.sendInReplyTo(m, nil) }
+
+// VerifConcDropAndSend is session.dropAndSendInReplyTo(m, nil).
+func (v *VerifConcSession) VerifConcDropAndSend(m *Message) error {
+	return v.s.dropAndSendInReplyTo(m, nil)
+}
+
+// VerifConcDropAndReset is session.dropAndReset.
+func (v *VerifConcSession) VerifConcDropAndReset() error { return v.s.dropAndReset() }
+
+// VerifConcSendAppMessages is stateMachine.SendAppMessages (what the run loop does on messageEvent).
+func (v *VerifConcSession) VerifConcSendAppMessages() { v.s.SendAppMessages(v.s) }
+
+// VerifConcResend is inSession.resendMessages(session, begin, end, inReplyTo) with an empty inReplyTo.
+func (v *VerifConcSession) VerifConcResend(begin, end int) error {
+	return inSession{}.resendMessages(v.s, begin, end, *NewMessage())
+}
+
+// VerifConcHandleLogon is session.handleLogon on an inbound Logon (initiator side: no reply is generated).
+func (v *VerifConcSession) VerifConcHandleLogon(m *Message) error { return v.s.handleLogon(m) }
+
+// VerifConcQueueLen is len(toSend), read under sendMutex.
+func (v *VerifConcSession) VerifConcQueueLen() int {
+	v.s.sendMutex.Lock()
+	defer v.s.sendMutex.Unlock()
+	return len(v.s.toSend)
+}
